@@ -113,6 +113,11 @@ Definition tokens_justified (g : cfg) (cl : list client) (gt : store) (cr : cred
          | None => true
          | Some i => String.eqb i (expected_issuer g host fwd)
          end
+      (* a refresh token IS the grant of offline access (OIDC Core 11: the scope
+         offline_access "requests that an OAuth 2.0 Refresh Token be issued"): one
+         that comes along although offline_access was not requested carries a
+         scope beyond the requested ones *)
+      && (negb (t_refresh t) || string_in "offline_access" (d_scopes d))
       && match f with FNone => true | _ => false end
   | _, _ => false
   end.
